@@ -172,6 +172,20 @@ func CompareIndep(m *Model, data []byte) *IndepResult {
 			if len(t.EnumNames) != s.EnumN {
 				add("indep-type", p, "stored enum has %d members, created with %d", len(t.EnumNames), s.EnumN)
 			}
+		case "cmp":
+			fields := cmpLayouts[s.Type]
+			if len(t.Members) != len(fields) {
+				add("indep-type", p, "stored compound has %d members, created with %d", len(t.Members), len(fields))
+			} else {
+				off := uint32(0)
+				for i, f := range fields {
+					m := t.Members[i]
+					if m.Name != f.name || m.Offset != off || m.Type == nil || m.Type.Size != f.size || m.Type.Class != int(f.class) {
+						add("indep-type", p, "stored compound member %d = %q @%d %+v, created %q @%d class %d size %d", i, m.Name, m.Offset, m.Type, f.name, off, f.class, f.size)
+					}
+					off += f.size
+				}
+			}
 		case "opaque":
 			if t.OpaqueTag != s.OpaqueTag {
 				add("indep-type", p, "stored opaque tag %q, created with %q", t.OpaqueTag, s.OpaqueTag)
@@ -193,6 +207,29 @@ func CompareIndep(m *Model, data []byte) *IndepResult {
 		}
 		if s.Chunk != nil && !eqU64(g.ChunkDims, s.Chunk) {
 			add("indep-chunk", p, "stored chunk shape %v, created with %v", g.ChunkDims, s.Chunk)
+		}
+		if kind == "vl" {
+			if o.Written && eqU64(dims, o.Dims) {
+				switch {
+				case g.RawErr != "":
+					add("indep-raw-error", p, "element references cannot be assembled: %s", g.RawErr)
+				case len(g.Raw) != 16*len(o.VL):
+					add("indep-raw", p, "%d bytes of element references, want %d x 16", len(g.Raw), len(o.VL))
+				default:
+					for i, want := range o.VL {
+						got, err := f.ResolveVLen(g.Raw[i*16 : (i+1)*16])
+						if err != nil {
+							add("indep-vlen", p, "element %d (%d bytes written) does not resolve: %v", i, len(want), err)
+							break
+						}
+						if !bytes.Equal(got, want) {
+							add("indep-vlen", p, "element %d resolves to %d bytes, written %d", i, len(got), len(want))
+							break
+						}
+					}
+				}
+			}
+			continue
 		}
 		if o.Written && eqU64(dims, o.Dims) {
 			switch {
